@@ -3,6 +3,7 @@
 These functions are *lemmas written as programs*: a loop with an invariant is how the
 verifier does an induction.  They only read the heap.
 """
+from job_shop_lib import JobShopInstance
 from job_shop_lib.dispatching import Dispatcher
 
 
@@ -26,3 +27,14 @@ def lemma_machine_ends_monotone(dispatcher: Dispatcher, machine_id: int, index: 
     while position > 0:
         position -= 1
     return position
+
+
+def lemma_matrices_round_trip(instance: JobShopInstance) -> JobShopInstance:
+    """the two matrices of a (non-flexible) instance, given back to from_matrices, rebuild the same jobs: the composition
+    of the three contracts, checked by running them one after the other"""
+    return JobShopInstance.from_matrices(instance.durations_matrix, instance.machines_matrix)
+
+
+def lemma_matrices_round_trip_flexible(instance: JobShopInstance) -> JobShopInstance:
+    """the same composition for instances whose machines matrix holds LISTS of machine ids (flexible instances)"""
+    return JobShopInstance.from_matrices(instance.durations_matrix, instance.machines_matrix)
